@@ -474,7 +474,12 @@ pub fn format_var(name: &str, value: f64, is_first: bool) -> String {
     } else {
         value.abs().to_string()
     };
-    format!("{}{}{}", sign, num, name)
+    format!(
+        "{}{}{}",
+        sign,
+        num,
+        crate::utils::render_variable_name(name)
+    )
 }
 
 impl StandardLinearModel {
